@@ -257,7 +257,14 @@ class Ctx:
     def go_test_build(self, pkg, out=None, tags="verif"):
         """Compile the test binary of /repo/<pkg> (with overlay files and the verif tag)."""
         out = out or os.path.join(self.scratch, "test_%s.bin" % pkg.replace("/", "_"))
-        cmd = ["go", "test", "-c", "-o", out, "-vet=off", "-overlay", self.overlay_json()]
+        # a private copy of go.mod/go.sum: whatever the go command wants to note there (e.g. an indirect requirement that a
+        # harness file imports directly) never touches /repo
+        md = os.path.join(self.scratch, "gomod")
+        if not os.path.isdir(md):
+            os.makedirs(md)
+            shutil.copy(os.path.join(REPO, "go.mod"), md)
+            shutil.copy(os.path.join(REPO, "go.sum"), md)
+        cmd = ["go", "test", "-c", "-o", out, "-vet=off", "-modfile", os.path.join(md, "go.mod"), "-overlay", self.overlay_json()]
         if tags:
             cmd += ["-tags", tags]
         cmd += ["./" + pkg]
